@@ -24,8 +24,8 @@ pub fn model(tier: Tier, world: &str) -> Hist {
 
 pub fn run(tier: Tier) -> Outcome {
     let worlds: &[&str] = match tier {
-        Tier::Quick => &["A", "B", "C", "D"],
-        Tier::Thorough => &["A", "B", "C", "D"],
+        Tier::Quick => &["A", "B", "C", "D", "G"],
+        Tier::Thorough => &["A", "B", "C", "D", "G"],
     };
     let depth = match tier {
         Tier::Quick => 3,
@@ -49,6 +49,6 @@ pub fn run(tier: Tier) -> Outcome {
             "magnitudes explored: totals <= ~2^40 native units, share values < 2^8; amounts from the state-relative menus of hist.rs".into(),
             "hash collisions of the 256-bit state key are ignored".into(),
         ],
-        &["R4", "RK"],
+        &["R4", "RK", "R3w"],
     )
 }
